@@ -191,6 +191,41 @@ def run_history(case, rng):
             extra = bystander()
             extra.__name__ = extra.__qualname__ = 'bystander'
             roots.append(extra)
+        sleeper_form = None
+        sleeper_log = []
+        if kind in ('ok', 'nested', 'leak') and rng.random() < 0.3:
+            # somebody who can still make progress when everybody else is done: the clock has to
+            # go all the way to infinity before the run may return
+            sleeper_form = rng.choice(['delay', 'date', 'child-after', 'interval', 'until'])
+
+            async def sleeper(form=sleeper_form, sleeper_log=sleeper_log):
+                infinity = float('inf')
+                try:
+                    if form == 'delay':
+                        await (time + infinity)
+                    elif form == 'date':
+                        await (time >= infinity)
+                    elif form == 'child-after':
+                        async def late():
+                            sleeper_log.append(('child', time.now))
+                        async with usim.Scope() as scope:
+                            scope.do(late(), after=infinity)
+                    elif form == 'interval':
+                        async for _ in usim.delay(infinity):
+                            break
+                    else:
+                        async with usim.until(time + infinity):
+                            await usim.eternity
+                    sleeper_log.append(('resumed', time.now))
+                finally:
+                    try:
+                        sleeper_log.append(('left', time.now))
+                    except RuntimeError:
+                        sleeper_log.append(('left', 'outside of the run'))
+            extra = sleeper()
+            extra.__name__ = extra.__qualname__ = 'sleeper'
+            roots.append(extra)
+            stats['infinite_sleepers'] = stats.get('infinite_sleepers', 0) + 1
         till = None
         if kind == 'till':
             till = start + rng.choice([0, 0.5, 1, 1.5, 10])
@@ -221,6 +256,14 @@ def run_history(case, rng):
         if any(entry[2] != start for entry in begins):
             vio('roots-not-started-at-start', 'roots began at %s, start=%r' % (
                 [entry[2] for entry in begins], start))
+        if sleeper_form is not None and kind != 'leak' and outcome[0] == 'ok':
+            # (a run that fails because of a leaked value tears the sleeper down afterwards)
+            infinity = float('inf')
+            if ('resumed', infinity) not in sleeper_log or sleeper_log[-1] != ('left', infinity):
+                vio('returned-before-quiescence',
+                    'an activity waiting for an infinite span of time (%s) could still make '
+                    'progress when run #%d returned: it logged %s' % (
+                        sleeper_form, position, sleeper_log))
         if kind == 'fail':
             stats['failing_runs'] += 1
             if outcome[0] != 'exc' or outcome[1] is not raised[0]:
